@@ -1,0 +1,24 @@
+// SPDX-License-Identifier: MIT OR Apache-2.0
+
+//! Verification hook H4, compiled only with `--cfg p2panda_p2panda_verif` (off by default).
+//!
+//! Lets a deterministic simulator run the real [`Gossip`] API object (with its handles,
+//! subscriptions and topic drop guards) against its own probe actor standing in for the gossip
+//! manager: the probe receives the same [`ToGossipManager`] messages the real manager would.
+use ractor::ActorRef;
+
+use crate::NodeId;
+use crate::address_book::AddressBook;
+use crate::gossip::{Gossip, GossipConfig};
+
+pub use crate::gossip::actors::ToGossipManager;
+
+/// Creates the public `Gossip` API object on top of the given manager actor.
+pub fn gossip_with_manager(
+    actor_ref: ActorRef<ToGossipManager>,
+    my_node_id: NodeId,
+    address_book: AddressBook,
+    config: GossipConfig,
+) -> Gossip {
+    Gossip::new(actor_ref, my_node_id, address_book, config)
+}
